@@ -73,7 +73,22 @@ impl Property for C07 {
         let mut opts = QOpts::all();
         opts.limit = false;
         opts.join_share = 3;
-        let g = gen_query(t, ctx, opts);
+        let mut g = gen_query(t, ctx, opts);
+        // grouped statements of nothing but keys and PERCENTILEs (values computed only when the table is built; a group all of whose
+        // arguments are NULL has no row at all): LIMIT n still keeps the first n rows of the unlimited table
+        if !g.query.group_by.is_empty() && g.joined.is_none() && t.chance(1, 4) {
+            let numeric: Vec<String> = g.table.cols.iter().filter(|c| matches!(c.1, Ty::Int | Ty::Real)).map(|c| c.0.clone()).collect();
+            if !numeric.is_empty() {
+                let keys = g.query.group_by.clone();
+                g.query.items = keys.iter().enumerate().map(|(i, k)| (k.clone(), Some(format!("k{}", i)))).collect();
+                for i in 0..1 + t.draw(2) {
+                    let x = crate::sql::E::col(t.pick(&numeric).as_str());
+                    g.query.items.push((crate::sql::E::Agg("PERCENTILE".into(), false, vec![x, crate::sql::E::Real(t.pick(&["0.5", "0.0", "0.9"]).to_string())]), Some(format!("ap{}", i))));
+                }
+                g.query.having = None;
+                g.query.distinct = false;
+            }
+        }
         let lines = crate::props::c04::gen_group_lines(t, &g.table, 16);
         let joined_lines = g.joined.as_ref().map(|j| gen_data(t, j, 8)).unwrap_or_default();
         let nfiles = if ctx.excluded("c07_limit_multi_file") { 1 } else { 1 + t.weighted(&[3, 3, 2]) };
